@@ -182,6 +182,13 @@ pub fn build_world_with_gap(coin: &'static refmodel::coins::Coin, chain: &[Block
         w.extra.push(Extra::File("xblk00001.dat".into(), vec![9; 64]));
         w.extra.push(Extra::Dir("blk00007.dat".into()));
         w.extra.push(Extra::File("blk00555.dat".into(), vec![0xfa; 100]));
+        // entries that cannot be stat'ed or lead elsewhere: dangling links (blk-named and not), a relative link to a
+        // sibling, a link to a directory, a link loop
+        w.extra.push(Extra::Symlink("blk00777.dat".into(), "/nonexistent/archive/blk00777.dat".into()));
+        w.extra.push(Extra::Symlink("notes.txt".into(), "../gone/notes.txt".into()));
+        w.extra.push(Extra::Symlink("blk00778.dat".into(), "blk00555.dat".into()));
+        w.extra.push(Extra::Symlink("blk00779.dat".into(), ".".into()));
+        w.extra.push(Extra::Symlink("blk00780.dat".into(), "blk00780.dat".into()));
     }
     w
 }
